@@ -294,6 +294,11 @@ def motifScoresWith (trim : Nat → Option Int) (m : List (List β)) (rows : Lis
 def motifScores := @motifScoresWith β add zero trimNew
 def motifScoresOld := @motifScoresWith β add zero trimOld
 
+/-- `get_motif_scores_old` / `PositionWeightMatrix(pwm).rolling_window(seqs)`: the generic rolling
+mechanism with `PWM.calculate_score` (`matrix[window, arange(w)].sum()`) as the window function -/
+def motifScoresRolling (m : List (List β)) (rows : List (List Nat)) : List (List β) :=
+  rolling m.length (windowScore add zero m m.length) rows
+
 def specMotifScores (m : List (List β)) (rows : List (List Nat)) : List (List β) :=
   spec m.length (windowScore add zero m m.length) rows
 end pwm
@@ -320,6 +325,12 @@ def countKmersLabeled (alphabet : List Nat) (k : Nat) (rows : List (List Nat)) :
 
 def countKmersRowsLabeled (alphabet : List Nat) (k : Nat) (rows : List (List Nat)) : List (List Nat) × List (List Nat) :=
   (getLabels alphabet k, (getKmersDispatch alphabet.length k rows).map (bincount (alphabet.length ^ k)))
+
+/-- `EncodedCounts.__add__` / `sum(...)` over chunks (`@streamable(sum)` on `count_kmers`) -/
+def addCounts (a b : List Nat) : List Nat := List.zipWith (· + ·) a b
+
+/-- `KmerEncoder.inverse`: `(hash[:, None] // n ** arange(k)) % n` -/
+def kmerInverse (n k : Nat) (h : Nat) : List Nat := kmerDigits n k h
 
 def specCountKmers (n k : Nat) (rows : List (List Nat)) : List Nat :=
   bincount (n ^ k) (spec k (fun win => (hashLE n win : Int)) rows).flatten
